@@ -4,6 +4,7 @@ import copy
 import ckprop
 import genck
 import implck
+import directed
 from ckprop import model_view, shrink_candidates  # noqa: F401
 
 DESCRIPTION = ("Lean: Props/C02.lean. Tie + oracle: after a normal return the postconditions of the chain are evaluated "
@@ -19,8 +20,18 @@ ASSUMPTIONS = ["user callables answer as a function of the site (A-oracle)"]
 AW = {"T": 8, "F": 4, "R": 1, "BR": 1, "CT": 1, "CF": 1, "CR": 0.5}
 
 
+run_directed = directed.run
+NEIGHBOURS = [{"from": "C04", "limit": 400, "why": "inherited postconditions as built by the real metaclass gate the return"},
+              {"from": "C18", "limit": 400, "why": "postconditions below foreign wrappers / of late decorated classes gate the return"},
+              {"from": "C13", "limit": 400, "why": "postconditions of async callables are awaited and judged"},
+              {"from": "C11", "limit": 400, "why": "after an exception postconditions gate the following calls again"},
+              {"from": "C07", "limit": 400, "why": "a violated postcondition raises the violation error whatever its message needs to re-evaluate"}]
+
+
 def cases(tier, rng):
     thorough = tier == "thorough"
+    for c in directed.used_before_override_cases():
+        yield "directed-used-before-override", c
     for c in genck.exhaustive_post(genck.KINDS, [False, True], 3, 3 if thorough else 2):
         yield "exh", c
     if not thorough:
